@@ -1534,6 +1534,10 @@ class ListNode(SyntaxNodeBase):
                 text = node.format()
             if self._is_numeric_entry(last_node) and self._is_numeric_entry(node):
                 ret = self._join_entries(ret, text)
+            elif isinstance(last_node, ValueNode) and isinstance(node, ValueNode):
+                # a word (a particle of MODE, a law of MT) behind an entry whose padding holds the end of
+                # the line or a comment: it continues this input as well
+                ret = self._continue_line(ret, text)
             else:
                 ret += text
             last_node = node
@@ -1567,6 +1571,26 @@ class ListNode(SyntaxNodeBase):
         :rtype: str
         """
         if front and text:
+            joined = ListNode._continue_line(front, text)
+            if joined != front + text:
+                return joined
+            if not front[-1].isspace() and not text[0].isspace():
+                return f"{front} {text}"
+        return front + text
+
+    @staticmethod
+    def _continue_line(front, text):
+        """
+        Appends the text of the next entry so that an entry behind a comment or a line break stays a
+        continuation of this input (at least ``BLANK_SPACE_CONTINUE`` leading blanks).
+
+        :param front: the text so far.
+        :type front: str
+        :param text: the text of the next entry (with its own padding).
+        :type text: str
+        :rtype: str
+        """
+        if front and text:
             # an entry can not follow a comment on the same line: it would be part of the comment
             last_line = front.rsplit("\n", 1)[-1]
             if "$" in last_line or (
@@ -1577,8 +1601,6 @@ class ListNode(SyntaxNodeBase):
                 lead = len(text) - len(text.lstrip(" "))
                 if lead < constants.BLANK_SPACE_CONTINUE:
                     return front + " " * (constants.BLANK_SPACE_CONTINUE - lead) + text
-            elif not front[-1].isspace() and not text[0].isspace():
-                return f"{front} {text}"
         return front + text
 
     _COMMENT_LINE = re.compile(r" {0,4}[cC]( |$)")
